@@ -430,12 +430,35 @@ def elementwise(it, fn, *args):
     return Arr(base.space, fn(*vals), base.mask)
 
 
+def outer_vars(space, *zs):
+    """generic-row variables of *other* row spaces occurring in the formulas: a count / sum over the rows of `space` is a function of them"""
+    seen, out, stack = set(), {}, [z for z in zs if z is not None and not isinstance(z, bool)]
+    while stack:
+        t = stack.pop()
+        if t.get_id() in seen:
+            continue
+        seen.add(t.get_id())
+        if z3.is_const(t) and t.decl().kind() == z3.Z3_OP_UNINTERPRETED and t.decl().name().startswith("i@") and not z3.eq(t, space.i):
+            out[t.decl().name()] = t
+        elif z3.is_app(t):
+            stack.extend(t.children())
+    return [out[k] for k in sorted(out)]
+
+
 def _count(it, space, mask):
     """number of rows selected by a mask: non-negative, and at least one if the generic row is selected"""
     mask = z3.simplify(mask)
+    ov = outer_vars(space, mask)
+    if ov:
+        # the mask refers to the generic row of another space (e.g. "rows whose key is this node"): the count is a function of it
+        f = z3.Function(f"count[{space.name},{_key(mask)}]", *([v.sort() for v in ov] + [I]))
+        c = f(*ov)
+        if it is not None:
+            it.ctx.axiom(z3.ForAll(ov, z3.And(c >= 0, c <= space.n, z3.Implies(z3.And(space.n > 0, mask), c >= 1)), patterns=[c]))
+        return c
     c = z3.Int(f"count[{space.name},{_key(mask)}]")
     if it is not None:
-        it.ctx.axiom(z3.And(c >= 0, z3.Implies(mask, c >= 1)))
+        it.ctx.axiom(z3.And(c >= 0, c <= space.n, z3.Implies(z3.And(space.n > 0, mask), c >= 1)))
     return c
 
 
@@ -776,6 +799,8 @@ class Mat:
                 and len(self.segments) > 1:
             return MultiArr({sg: Arr(sp, self.get(sg, col), True) for sg, sp in self.segments.items()})
         if isinstance(col, (int,)) and not isinstance(col, bool):
+            if getattr(rows, "node_mask", None) is not None and len(self.segments) == 1 and rows.space is next(iter(self.segments.values())):
+                return Arr(rows.space, self.get(next(iter(self.segments)), col), rows.node_mask)
             seg = self._seg_of(rows)
             if seg is not None:
                 return Arr(self.segments[seg], self.get(seg, col), self.seg_masks.get(seg, True))
@@ -846,6 +871,19 @@ class Mat:
                 return
         if not isinstance(col, int):
             raise EngineError("ppc matrix store with non-constant column")
+        if getattr(rows, "node_mask", None) is not None and len(self.segments) == 1 and rows.space is next(iter(self.segments.values())):
+            # ppc[keys, col] = v with keys = the nodes that have rows (node-indexed contract of _sum_by_group): written at those nodes only
+            seg = next(iter(self.segments))
+            if isinstance(val, Arr):
+                if val.space is not rows.space:
+                    raise EngineError("store through node keys: value of another row space")
+                v = val.e
+            elif is_scalar(val):
+                v = val
+            else:
+                raise EngineError("store through node keys")
+            self.put(it, seg, col, scalar_ite(SV(rows.node_mask), v, self.get(seg, col)))
+            return
         if getattr(rows, "is_group_keys", False):
             # ppc[b, col] = v with (b, v) = _sum_by_group(...): one row per distinct key, holding the sum of the group
             if it.ctx.merge_mode:
